@@ -564,7 +564,7 @@ def place_ub_at(body, site_bb, op, depth=0, _vis=None):
 
 
 _PURE_CALL = re.compile(r"(<impl \[T\]>|Vec::<T, A>|<impl str>|String|VecDeque::<T, A>|ArrayVec::<A>|TinyVec::<A>)::(len|is_empty|as_slice|as_str|as_bytes)$"
-                        r"|ops::deref::Deref(>)?::deref$|convert::(From|Into)(<.*>)?(>)?::(from|into)$|convert::AsRef(<.*>)?(>)?::as_ref$"
+                        r"|sciparse::core::view::View::as_slice$|ops::deref::Deref(>)?::deref$|convert::(From|Into)(<.*>)?(>)?::(from|into)$|convert::AsRef(<.*>)?(>)?::as_ref$"
                         r"|core::num::<impl [a-z0-9]+>::(from_be_bytes|from_le_bytes|to_be|to_le|swap_bytes|is_multiple_of|min|max|saturating_sub|saturating_add|wrapping_add|wrapping_sub)$")
 
 
@@ -827,6 +827,10 @@ def _copy_same_len(body, s):
     if dst[0] != "call" or not re.search(r"::(index_mut|get_unchecked_mut|index)$", dst[1]) or len(dst[2]) != 2:
         return None
     ix = dst[2][1]
+    if ix[0] == "agg" and ix[1][0] == "adt" and ix[1][1].endswith("::RangeTo") and len(ix[2]) == 1:
+        S = _len_tree_of(ix[2][0])
+        if S is not None and FX.strip_sites(S) == FX.strip_sites(src) and _pure_tree(S):
+            return "destination is x[..len(src)]: lengths equal by construction"
     if not (ix[0] == "agg" and ix[1][0] == "adt" and ix[1][1].endswith("::Range") and len(ix[2]) == 2):
         return None
     a, b = ix[2]
@@ -855,8 +859,43 @@ def _str_prefix_guard(body, s, base):
         if not p or c[0] != "call" or not re.search(r"<impl str>::starts_with$", c[1]) or len(c[2]) != 2:
             continue
         ch = c[2][1]
-        if ch[0] == "lit" and isinstance(ch[1], int) and 0 <= ch[1] < 128 and FX.strip_sites(_peel_refs(c[2][0])) == FX.strip_sites(b):
+        if not (ch[0] == "lit" and isinstance(ch[1], int) and 0 <= ch[1] < 128):
+            continue
+        if FX.strip_sites(_peel_refs(c[2][0])) == FX.strip_sites(b) and _stable(b):
             return "guard starts_with(one-byte char %d) at bb%d implies len >= 1 and a char boundary at 1" % (ch[1], g)
+        # loop-carried strings: compare the places instead of the (merged) value trees — the receiver of starts_with and
+        # the indexed string are the same singly-defined local, whose definition dominates the guard, which dominates the site
+        cb = c[5] if len(c) > 5 else None
+        gc = [x for x in body.calls if x.bb == cb]
+        if gc:
+            r1, r2 = _root_local(body, gc[0].args[0]), _root_local(body, s.ops[0])
+            if r1 is not None and r1 == r2:
+                return "guard starts_with(one-byte char %d) at bb%d on the same string local _%d" % (ch[1], g, r1)
+    return None
+
+
+def _root_local(body, op, depth=6):
+    """the singly-assigned local an operand refers to, looking through `&x`, `&*x`, moves and copies"""
+    pl = op_place(op)
+    for _ in range(depth):
+        if pl is None:
+            return None
+        l, proj = pl[0], pl[1]
+        if any(p != "*" for p in proj):
+            return None
+        ds = body.defs.get(l, ())
+        if 1 <= l <= body.argc:
+            return l if not ds else None
+        if len(ds) != 1:
+            return None
+        d = ds[0]
+        if d[0] == "assign" and not d[3] and d[4][0] in ("ref", "raw"):
+            pl = d[4][2]
+            continue
+        if d[0] == "assign" and not d[3] and d[4][0] == "use":
+            pl = op_place(d[4][1])
+            continue
+        return l
     return None
 
 
@@ -983,6 +1022,18 @@ def _auto_discharge(F, s, cfg):
                 return "constant range %d..%d within length %d" % (rb[1], rb[2], n)
             if rb[0] == "from" and rb[1] is not None and rb[1] <= n:
                 return "constant range %d.. within length %d" % (rb[1], n)
+    if s.cls == "index" and s.call is not None and re.search(r"<impl \[T\]>::split_at(_mut)?$", s.call.decl) and len(s.ops) == 2:
+        base, mid = body.origin(s.ops[0]), body.origin(s.ops[1])
+        for g, cond, pol in _cmp_guards(body, s.bb):
+            c, p = cond, pol
+            while c[0] == "un" and c[1] == "Not":
+                c, p = c[2], not p
+            if c[0] != "bin":
+                continue
+            for ln in (c[2], c[3]):
+                if _is_len_of(ln, base) and implies_le(c, p, mid, ln):
+                    return "guard %s (%s edge) implies mid <= len" % (fmt(cond, 80), pol)
+        return None
     if s.cls == "index" and s.call is not None and s.call.decl.endswith("<impl [T]>::as_chunks"):
         m = re.search(r"::as_chunks::<(\d+)>$", s.call.full or "")
         if m and int(m.group(1)) >= 1:
